@@ -169,10 +169,11 @@ PROPS["C08"] = {
     "rule": "short real-client/real-server sessions over L (-M 100..255, boundaries favoured) x domain length 3..min(128, L-24) x upstream codec (forced through the path: case-changing relay -> Base32, 8-bit-unclean -> Base64, "
             "'+'-mangling -> Base64u, clean -> Base128) x plain/wildcard-served domain, with 8-30 upstream packets of 40..1400 bytes (all chunk-tail residues) and fragsize autoprobe in half of the runs. Every query name the client emits is judged "
             "on the wire: strict RFC 1035 parse, labels 1..63, <= 255 bytes, presentation length <= L for data/probe/ping/version/login/set-fragsize names, suffix = tunnel domain at a label boundary; data chunks reference-decode to exactly the "
-            "next contiguous non-empty slice of compress2(packet) with the last flag exactly at its end; after the server processed a chunk its reassembly buffer equals the slices sent so far; handshake names decode to (a prefix of) the documented fields. "
+            "next contiguous non-empty slice of compress2(packet) with the last flag exactly at its end; after the server processed a chunk its reassembly buffer equals the slices sent so far; handshake names decode to (a prefix of) the documented fields. In the sessions scenario the same server-side comparison is made for protocol (model) clients that build their names with an independent encoder in all four codecs, including clients that inherit the slot of an expired session which had negotiated another codec. "
             "non-trivial = handshake completed and both full and tail chunks observed; distinct = distinct run fingerprints",
     "jobs": [
         {"scen": "tunnel", "sets": {"mode": "names"}, "quick": 4000, "thorough": 250000},
+        {"scen": "sessions", "sets": {}, "quick": 1000, "thorough": 60000},
     ],
     "expect_probes": ["c08.names", "c08.d", "c08.r", "c08.p", "c08.v", "c08.l", "c08.n", "c08.full_chunks", "c08.tail_chunks", "c08.srv_prefix_checked", "c08.near_limit", "c08.codec.Base64", "c08.codec.Base64u", "c08.codec.Base128"],
 }
